@@ -62,6 +62,71 @@ def impl(case):
     finally:
         reset_pyrates()
 
+def impl_conn(case):
+    """source population p (x' = k_j; first ns nodes) -> target populations q and (optionally) r (integrators), one
+    Connectivity(weights, delays) per target population (case['conns'] = [{tgt: 0|1, W: rows, d: delay}], case['pops'] =
+    [ns, nq, nr]); the case's `edges` list is the expansion, one edge per matrix entry."""
+    import warnings
+    warnings.filterwarnings("ignore")
+    import numpy as np
+    from pyr import reset_pyrates, frac
+    reset_pyrates()
+    try:
+        from pyrates import CircuitTemplate, NodeTemplate, OperatorTemplate
+        from pyrates.frontend.template.population import PopulationTemplate, Connectivity
+        nodes = case["nodes"]; ns, nq, nr = case["pops"]
+        sop = OperatorTemplate("sa", equations=["x' = k"], variables={"x": "output(0.0)", "k": 1.0})
+        top = OperatorTemplate("ta", equations=["x' = r_in + m"], variables={"x": "output(0.0)", "r_in": "input(0.0)", "m": 0.0})
+        tnode = NodeTemplate("TN", operators=[top])
+        pops = {"p": PopulationTemplate("p", NodeTemplate("SN", operators=[sop]), ns,
+                                        params={"sa/k": [float(Fr(n["k"])) for n in nodes[:ns]], "sa/x": [float(Fr(n["x0"])) for n in nodes[:ns]]}),
+                "q": PopulationTemplate("q", tnode, nq, params={"ta/x": [float(Fr(n["x0"])) for n in nodes[ns:ns + nq]]})}
+        outs = {"p": "p/sa/x", "q": "q/ta/x"}
+        if nr:
+            pops["r"] = PopulationTemplate("r", tnode, nr, params={"ta/x": [float(Fr(n["x0"])) for n in nodes[ns + nq:]]})
+            outs["r"] = "r/ta/x"
+        conns = [Connectivity(source="p/sa/x", target=("q", "r")[cn["tgt"]] + "/ta/r_in",
+                              weights=np.array([[float(Fr(w)) for w in row] for row in cn["W"]]), delays=float(Fr(cn["d"])))
+                 for cn in case["conns"]]
+        c = CircuitTemplate("c", populations=pops, connections=conns)
+        dt = float(Fr(case["dt"]))
+        try:
+            r = c.run(simulation_time=case["steps"] * dt, step_size=dt, solver="euler", outputs=outs,
+                      float_precision="float64", backend="default", clear=True, verbose=False)
+        except (IndexError, ValueError, KeyError, TypeError, AttributeError, NameError) as e:
+            return {"raised": type(e).__name__, "msg": str(e)[:160]}
+        cols = [np.asarray(r[k].values).reshape(case["steps"], n) for k, n in (("p", ns), ("q", nq), ("r", nr)) if n]
+        return [[frac(v) for blk in cols for v in blk[j]] for j in range(case["steps"])]
+    finally:
+        reset_pyrates()
+
+def gen_conn(rng):
+    """Connectivity(weights, delays) without spread: the discrete (Ns, d+1) ring buffer of _add_matrix_delay; one source population
+    with distinct dyadic rates projecting to one or two target populations with different delays (each delayed Connectivity has
+    its own buffer since fix D54). Not generated (loud on the current tree, outside C09): a 1 x 1 delayed matrix (ValueError at the
+    first call) and two Connectivity objects between the same two variables (ValueError at compile time)."""
+    dt = Fr(1, rng.choice([4, 8, 16]))
+    ns = rng.randint(1, 4); nq = rng.randint(1 if ns > 1 else 2, 3); nr = rng.choice([0, 0, rng.randint(1 if ns > 1 else 2, 3)])
+    ks = rng.sample([Fr(j, 2) for j in range(1, 9)], ns)
+    nodes = [dict(kind="s", cls=0, k=str(ks[j]), x0=str(Fr(rng.randint(1, 8), 4))) for j in range(ns)]
+    nodes += [dict(kind="t", cls=0, k="0", x0=str(Fr(rng.randint(-8, 8), 4))) for _ in range(nq + nr)]
+    conns, edges = [], []
+    for tgt, (off, nt) in enumerate(((ns, nq), (ns + nq, nr))):
+        if not nt:
+            continue
+        while True:
+            W = [[str(Fr(rng.choice([-4, -3, -2, -1, 0, 0, 1, 2, 3, 4]), 4)) for _ in range(ns)] for _ in range(nt)]
+            if any(Fr(w) != 0 for row in W for w in row):
+                break
+        d = _delay(rng, dt, 2)
+        if rhe(d / dt) < 2:
+            d += dt
+        conns.append(dict(tgt=tgt, W=W, d=str(d)))
+        edges += [[s, off + t, W[t][s], str(d)] for t in range(nt) for s in range(ns)]
+    maxd = max(rhe(Fr(cn["d"]) / dt) for cn in conns)
+    return dict(dt=str(dt), steps=maxd + rng.randint(3, 6), vectorize=True, solver="euler", nodes=nodes, edges=edges, conns=conns,
+                pops=[ns, nq, nr])
+
 # ---------------------------------------------------------------------------------------------- generator
 def _delay(rng, dt, kmin=1):
     while True:
@@ -254,7 +319,7 @@ def model_outputs(ctx, case, tag):
 
 # ---------------------------------------------------------------------------------------------- shrinking
 def fails(ctx, case, tag):
-    r = run_impl(ctx, "c09", "impl", [case], nworkers=1)[0]
+    r = run_impl(ctx, "c09", "impl_conn" if case.get("conns") else "impl", [case], nworkers=1)[0]
     if isinstance(r, dict) and "err" in r:
         return True, r
     _, badS, _, _ = model_compare(ctx, [case], [r], tag)
@@ -288,6 +353,7 @@ def check(ctx):
         cases += [gen_case(ctx.rng, "valid") for _ in range(n_valid)]
         for kind in ("sibling", "parallel", "heun", "none", "short"):
             cases += [gen_case(ctx.rng, kind) for _ in range(n_viol)]
+        cases += [gen_conn(ctx.rng) for _ in range(n_valid // 5)]
     dec_cases = [] if ctx.replay else [gen_decimal(ctx.rng) for _ in range(n_valid // 5)]
     if ctx.replay and cases and cases[0].get("observe") == "first_change":
         dec_cases, cases = cases, []
@@ -303,7 +369,15 @@ def check(ctx):
             violation(ctx, write_replay(ctx, "counterexample", dict(case=dec_cases[i], implementation_output=douts[i],
                       first_change_observed=None if isinstance(douts[i], dict) else first_change(douts[i]),
                       what="the step at which a delayed edge first delivers differs from round(delay/dt)+1 (decimal step sizes)")))
-    outs = run_impl(ctx, "c09", "impl", cases, per_case_timeout=120)
+    ci = [i for i, c in enumerate(cases) if c.get("conns")]; ei = [i for i, c in enumerate(cases) if not c.get("conns")]
+    outs = [None] * len(cases)
+    for i, r in zip(ei, run_impl(ctx, "c09", "impl", [cases[i] for i in ei], per_case_timeout=120)):
+        outs[i] = r
+    for i, r in zip(ci, run_impl(ctx, "c09", "impl_conn", [cases[i] for i in ci], per_case_timeout=120)):
+        outs[i] = r
+    if ci:
+        ctx.note(f"Connectivity(weights, delays) stream: {len(ci)} population circuits (discrete matrix ring buffer), compared with the "
+                 f"expansion into one edge per matrix entry")
     harness_err = [i for i, r in enumerate(outs) if isinstance(r, dict) and "err" in r]
     good = [i for i in range(len(cases)) if i not in harness_err]
     badI, badS, nwf, gfalse = model_compare(ctx, [cases[i] for i in good], [outs[i] for i in good], "main")
@@ -335,7 +409,7 @@ def check(ctx):
     nt = {canon(c) for i, c in enumerate(cases) if nontrivial(c) and i in in_guard}
     dt_of = lambda c: Fr(c["dt"])
     frac_q = lambda c: sorted({str((Fr(e[3]) / dt_of(c)) % 1) for e in c["edges"] if e[3] not in ("nokey", "none")})
-    hist = dict(decimal_step_stream=len(dec_cases), decimal_inexact_quotient=sum(1 for c in dec_cases if c["inexact_quotient"]),
+    hist = dict(connectivity_stream=len(ci), decimal_step_stream=len(dec_cases), decimal_inexact_quotient=sum(1 for c in dec_cases if c["inexact_quotient"]),
                 vectorized=sum(1 for c in cases if c["vectorize"]), heun=sum(1 for c in cases if c["solver"] == "heun"),
                 in_guard=len(in_guard), guard_violating={g: len(gfalse[g]) for g in GUARDS},
                 raised=sum(1 for o in outs if isinstance(o, dict) and "raised" in o),
